@@ -3,6 +3,7 @@ from props.m1common import *  # noqa: F401,F403
 from props.m1common import g, sp, sx, rng_for, is_err, compare_result, shrink_tree
 
 PID = "C19"
+KERNELS = ['K_remove_by']   # translated from /repo on every run, tied to the model by coq/Gen/<name>_eq.v
 RUNNER = "impl_m1.py"
 N = {"quick": 2100, "thorough": 70000}
 LEVEL_RULE = ("(12 % of the tie cases are UNRESTRICTED ties on sequences of non-empty sequences - whole containers are merged and the survivor rescaled to the run total; model Model/TieAll.v, theorems Proofs/TieAllP.v; leaf lengths compared within one tick per merge step because of half-tick rounding ties) seven operations in equal shares on random sequences / simultaneities with 0-6 children (leaves and nested containers), "
